@@ -494,6 +494,7 @@ def run(ctx: Ctx):
         ctx.cov["traces_validated_against_impl"] += 1
         ctx.case({"c2": c}, bool(r["sent"] or r["closed"]))
         ctx.count(f"c2:{c['kind']}:{'ticking' if r['acts'] else 'idle'}:sent={r['sent']}:closed={r['closed']}")
+        ctx.count(f"c2:command-gate:{'open' if r['allowed'] else 'shut'}")
         for (kind, detail) in r["oracle"]:
             ctx.violation({"kind": kind, "c2": c["kind"]}, f"{kind}: {detail}", {"c2_case": c, "oracle": kind})
         model = model_all[pos:pos + len(r["lines"])]
